@@ -156,6 +156,8 @@ func vfGenVerifyCase(r *vfRand, id int) *vfVCase {
 				sp.WrongAud = true
 			case 5:
 				sp.NbfIn = vfPtr64(3600)
+			case 6:
+				sp.Sub = "" // correctly signed, every other claim present, no subject: never acceptable, whatever was verified before it
 			}
 		}
 		spc := sp
